@@ -139,12 +139,15 @@ func verifC04_pending() {
 	verifC04ReadsAre("C04/base", s, root0, c0, probe)
 
 	np := verifParam("pending", 1)
-	wa, wb := verifC04Writes("wa", np), verifC04Writes("wb", np)
+	// a pending update may be empty (an empty block): its root is its parent's root
+	wa, wb := verifC04Writes("wa", verifChoose("wa.count", np+1)), verifC04Writes("wb", verifChoose("wb.count", np+1))
 	rootA, err := s.MemSet(&types.StoreSet{StateHash: root0, KV: wa, Height: 1}, true)
 	verifAssert("C04/memset-a", err == nil)
 	rootB, err := s.MemSet(&types.StoreSet{StateHash: root0, KV: wb, Height: 1}, true)
 	verifAssert("C04/memset-b", err == nil)
 	ca, cb := verifC04Apply(c0, wa), verifC04Apply(c0, wb)
+	// while the updates are pending, the committed root reads as before
+	verifC04ReadsAre("C04/base-while-pending", s, root0, c0, probe)
 	// pending updates are not yet part of the database
 	committedA, committedB := false, false
 	for _, which := range []int{0, 1} {
